@@ -4,7 +4,8 @@
 //!
 //! cases (one JSON object per line in, one JSON object per line out):
 //!   {"mode":"list"}
-//!       -> {"status":"ok","names":[{"name","kind":"builtin"|"type"|"func"|"value","type":..}, ...]}
+//!       -> {"status":"ok","names":[{"name","kind":"builtin"|"type"|"func"|"value","type":..}, ...],
+//!           "obj_size": size_of::<Obj>(), "alloc_cap": bytes}
 //!   {"mode":"sweep","fn":name,"pool":[src,...],"setup":[src,...],
 //!    "tuples":[[i,j],...] | "grid":{"vals":[i,...],"arity":k,"start":a,"end":b},
 //!    "fuel":n,"limit_ms":m,"detail":bool,"force":k}
@@ -224,6 +225,61 @@ fn usizes(v: &Value) -> Vec<usize> {
         .unwrap_or_default()
 }
 
+/// Walk (a bounded prefix of) a result so that a panic hidden in a lazy stream surfaces; materialised
+/// containers are only sampled. Returns a short tag for the detail record.
+fn touch(o: &Obj, cap: usize, depth: usize) -> String {
+    use nvh::noulith::Seq;
+    match o {
+        Obj::Seq(Seq::Stream(st)) => {
+            let mut it = st.clone_box();
+            let mut n = 0usize;
+            while n < cap {
+                match it.next() {
+                    None => break,
+                    Some(Ok(x)) => {
+                        if depth > 0 {
+                            touch(&x, cap, depth - 1);
+                        }
+                    }
+                    Some(Err(_)) => return format!("T[{}..!err]", n),
+                }
+                n += 1;
+            }
+            format!("T[{}]", n)
+        }
+        Obj::Seq(Seq::List(v)) => {
+            if depth > 0 {
+                for x in v.iter().take(cap) {
+                    touch(x, cap, depth - 1);
+                }
+            }
+            format!("L[{}]", v.len())
+        }
+        Obj::Seq(Seq::Dict(d, _)) => {
+            if depth > 0 {
+                for (_, x) in d.iter().take(cap) {
+                    touch(x, cap, depth - 1);
+                }
+            }
+            format!("D[{}]", d.len())
+        }
+        Obj::Instance(_, fields) => {
+            if depth > 0 {
+                for x in fields.iter().take(cap) {
+                    touch(x, cap, depth - 1);
+                }
+            }
+            "X".to_string()
+        }
+        Obj::Null => "N".to_string(),
+        Obj::Num(_) => "num".to_string(),
+        Obj::Seq(Seq::String(s)) => format!("S[{}]", s.len()),
+        Obj::Seq(Seq::Vector(v)) => format!("V[{}]", v.len()),
+        Obj::Seq(Seq::Bytes(v)) => format!("B[{}]", v.len()),
+        Obj::Func(..) => "Fn".to_string(),
+    }
+}
+
 /// Runs in the forked child. Returns the final JSON (the watchdog / allocator paths exit on their own).
 fn run_batch(case: &Value, p: &Pool, cap_mb: usize) -> Value {
     let fname = case["fn"].as_str().unwrap_or("");
@@ -316,7 +372,7 @@ fn run_batch(case: &Value, p: &Pool, cap_mb: usize) -> Value {
         let r = std::panic::catch_unwind(std::panic::AssertUnwindSafe(move || match f2.run(&env2, args) {
             Ok(o) => {
                 // force (a prefix of) a lazy result: a panic hidden in a stream is a panic too
-                let c = nvh::canon_cap(&o, cap);
+                let c = touch(&o, cap, 3);
                 drop(o);
                 ("ok".to_string(), c)
             }
@@ -403,7 +459,8 @@ fn main() {
                 };
                 names.push(json!({"name": k, "kind": kind, "type": format!("{:?}", ty)}));
             }
-            return json!({"status": "ok", "names": names});
+            return json!({"status": "ok", "names": names, "obj_size": std::mem::size_of::<Obj>(),
+                          "alloc_cap": (cap_mb as u64) << 20});
         }
         if pool.as_ref().map(|p| p.key != pool_key(case)).unwrap_or(true) {
             match build_pool(case) {
